@@ -350,6 +350,27 @@ func (w *world) applyStep(o Op) {
 			a.val, a.ok = o.V, true
 		}
 		structural = false
+	case "ElemJSON", "ElemJSONNull":
+		// decoding JSON into an element handle is Set with the decoded
+		// value (null: the zero value); the root accepts nothing
+		if a == nil {
+			return
+		}
+		w.nhand++
+		in, v := []byte(fmt.Sprint(o.V)), o.V
+		if o.Op == "ElemJSONNull" {
+			in, v = []byte("null"), 0
+		}
+		err := json.Unmarshal(in, a.e)
+		if !a.root {
+			if err != nil {
+				w.fail("json.Unmarshal(%s) into an element: %v", in, err)
+			}
+			a.val, a.ok = v, true
+		} else {
+			w.cls["json-into-root"] = true
+		}
+		structural = false
 	case "Swap":
 		w.nhand++
 		want := swapValid(a, b)
@@ -591,6 +612,13 @@ func propListModel(t *rapid.T) {
 		"Remove":     func(*rapid.T) { w.apply(Op{Op: "Remove", A: hnd("a")}) },
 		"Drop":       func(*rapid.T) { w.apply(Op{Op: "Drop", A: hnd("a")}) },
 		"Set":        func(*rapid.T) { w.apply(Op{Op: "Set", A: hnd("a"), V: smallVal()}) },
+		"ElemJSON": func(t *rapid.T) {
+			op := "ElemJSON"
+			if rapid.IntRange(0, 3).Draw(t, "null") == 0 {
+				op = "ElemJSONNull"
+			}
+			w.apply(Op{Op: op, A: hnd("a"), V: smallVal()})
+		},
 		"Swap": func(t *rapid.T) {
 			o := Op{Op: "Swap", A: hnd("a"), B: hnd("b")}
 			if swapValid(w.h(o.A), w.h(o.B)) && vkit.Known("C16:list/Swap") {
